@@ -514,18 +514,16 @@ def r6(repo, run):
         run.ok('C07.R6', dsf, 'default_safe_flag installs (requested and enclosing) before yielding (6 rows)')
     # sources added by node classes carry safe= derived from a node's ayns.safe
     n_calls = 0
-    holders = [fi for fi in repo.all_functions(include_nested=False) if fi.cls is not None and repo.is_subclass(fi.cls.name, 'ConfigNode') and
-               any(isinstance(c.func, ast.Attribute) and c.func.attr in ('add_source', 'add_multiple_sources') for c in calls_in(fi.node))]
-    entries = [f for f in repo.cha('on_preprocess_impl', ayns=True) + repo.cha('on_evaluate_impl', ayns=True) if f.cls is not None and any(h.cls is not None and repo.is_subclass(f.cls.name, h.cls.name) or f is h for h in holders)]
-    covered = set()
+    # entry points: the preprocess / evaluate implementations of node classes defined in modules that add sources anywhere
+    # (in the method itself, a local closure or a private helper - all of which the tracer inlines)
+    entries = [f for f in repo.cha('on_preprocess_impl', ayns=True) + repo.cha('on_evaluate_impl', ayns=True)
+               if f.cls is not None and ('add_source' in f.module.text or 'add_multiple_sources' in f.module.text)]
     todo = []
     for f in entries:
-        ps = tr.paths_of(repo, f, no_inline=NO_INLINE | {'on_evaluate_impl'})
-        covered |= {e.callee for p in ps for e in p.events if e.kind == 'enter'}
-        todo.append((f, ps))
-    for h in holders:
-        if h.qualname not in covered and h not in entries:
-            todo.append((h, tr.paths_of(repo, h, no_inline=NO_INLINE | {'on_evaluate_impl'})))
+        try:
+            todo.append((f, tr.paths_of(repo, f, no_inline=NO_INLINE | {'on_evaluate_impl'})))
+        except AnalysisError:
+            continue
     for fi, ps in todo:
         seen = set()
         for p in ps:
